@@ -75,7 +75,9 @@ def run(facts, cg):
                 for st in b.blocks[rbi]['stmts']:
                     if st['k'] == 'assign' and not st['pl']['p'] and st['pl']['l'] == 0 and st['rv']['k'] == 'agg' and st['rv'].get('vname') == 'Ready':
                         term = simplify(T.of_operand(b, st['rv']['ops'][0]))
-                        if any(n[0] == 'agg' and n[2] == 'Ok' for n in walk(term)):
+                        # Ready(Some(Ok(fragment))): the shape at the top, not an `Ok` somewhere inside an error's provenance
+                        inner = list(term[3].values())[0] if isinstance(term, tuple) and term[0] == 'agg' and term[2] == 'Some' and term[3] else None
+                        if isinstance(inner, tuple) and inner[0] == 'agg' and inner[2] == 'Ok':
                             rets.append(rbi)
             if not rets:
                 finding('R-RESUME', b.q, 'no-delivery-site', 'could not find where body fragments are delivered (cannot decide)')
@@ -449,6 +451,9 @@ def run(facts, cg):
                 for x, y in ((ta, tb), (tb, ta)):
                     if st['rv']['op'] == 'Eq' and has_field(x, 'offset') and has_field(x, 'size') and has_field(y, 'offset') and not has_field(y, 'size'):
                         good = True
+                    # `prev.end() == next.offset`: end() is the public accessor for offset + size
+                    if st['rv']['op'] == 'Eq' and has_call(x, 'ChunkOffset::end') and has_field(y, 'offset') and not has_field(y, 'size') and not has_call(y, 'ChunkOffset::end'):
+                        good = True
             instances.append({'rule': 'R-RUNS(adjacency)', 'function': b.q, 'comparisons': [show(simplify(T.of_rvalue(b, st['rv'], 0)))[:120] for _, st in cmps]})
             if not good:
                 finding('R-RUNS', b.q, 'adjacency-predicate', 'adjacency is not `prev.offset + prev.size == next.offset`')
@@ -543,7 +548,18 @@ def run(facts, cg):
             clears = [bi for bi, t in b.calls() if 'q' in t['callee'] and callee_q(t).startswith('bytes::bytes_mut::BytesMut::') and
                       callee_q(t).split('::')[-1] in ('clear', 'split') or ('q' in t['callee'] and callee_q(t) == 'bytes::bytes_mut::BytesMut::truncate' and
                                                                      len(t['args']) > 1 and t['args'][1].get('int') == 0)]
-            for nbi, nt in news:
+            # (anchored where the new request is put in place - the store into the reader's request slot -, so that building it in a
+            # helper before the buffer is emptied is the same thing)
+            puts = []
+            for sbi in b.live:
+                for st_ in b.blocks[sbi]['stmts']:
+                    if st_['k'] == 'assign' and st_['pl']['p'] and st_['pl']['p'][-1]['k'] == 'field' and has_call(simplify(T.of_rvalue(b, st_['rv'], 0)), 'HttpRangeRequest::new'):
+                        puts.append((sbi, st_))
+            for sbi, ct_ in b.calls():
+                if 'q' in ct_['callee'] and callee_q(ct_).split('::')[-1] in ('insert', 'replace', 'get_or_insert', 'get_or_insert_with') and callee_q(ct_).startswith('core::option::Option::') \
+                        and any(has_call(simplify(T.of_operand(b, a_)), 'HttpRangeRequest::new') for a_ in ct_['args'][1:]):
+                    puts.append((sbi, ct_))
+            for nbi, nt in (puts or news):
                 n_buf += 1
                 ok = any(cb in dom.get(nbi, ()) or cb == nbi for cb in clears) or any(nbi in dom.get(cb, ()) and _all_paths_hit(b, nbi, {cb}) for cb in clears)
                 instances.append({'rule': 'R-RUNS(buffer)', 'function': b.q, 'request_built_at': nt['loc'], 'receive_buffer_emptied': ok})
